@@ -214,6 +214,9 @@ func FreshBase(v ssa.Value) bool {
 	if _, ok := v.(*ssa.Alloc); ok {
 		return true
 	}
+	if ex, ok := v.(*ssa.Extract); ok && ex.Index == 0 {
+		v = ex.Tuple // (object, error) of a helper constructor
+	}
 	if c, ok := v.(*ssa.Call); ok {
 		if f := c.Call.StaticCallee(); f != nil && allocatorFns[f] {
 			return true
@@ -229,22 +232,31 @@ var allocatorFns = map[*ssa.Function]bool{}
 
 func computeAllocators(fns []*ssa.Function) {
 	allocatorFns = map[*ssa.Function]bool{}
-	for _, fn := range fns {
-		if fn.Signature.Results().Len() != 1 {
-			continue
-		}
-		if _, isPtr := fn.Signature.Results().At(0).Type().Underlying().(*types.Pointer); !isPtr {
-			continue
-		}
-		n, ok := 0, true
-		for _, vs := range ReturnedValues(fn) {
-			n++
-			if _, isAl := ssax.Strip(vs[0]).(*ssa.Alloc); !isAl {
-				ok = false
+	// (T*) or (T*, error); a return hands out an allocation of this call, the
+	// result of another allocator, or nil (with the error); to a fixpoint
+	for round := 0; round < 3; round++ {
+		for _, fn := range fns {
+			res := fn.Signature.Results()
+			if res.Len() != 1 && !(res.Len() == 2 && isErrorType(res.At(1).Type())) {
+				continue
 			}
-		}
-		if ok && n > 0 {
-			allocatorFns[fn] = true
+			if _, isPtr := res.At(0).Type().Underlying().(*types.Pointer); !isPtr {
+				continue
+			}
+			n, ok := 0, true
+			for _, vs := range ReturnedValues(fn) {
+				v := ssax.Strip(vs[0])
+				if k, isK := v.(*ssa.Const); isK && k.IsNil() && res.Len() == 2 {
+					continue
+				}
+				n++
+				if !FreshBase(v) {
+					ok = false
+				}
+			}
+			if ok && n > 0 {
+				allocatorFns[fn] = true
+			}
 		}
 	}
 }
@@ -762,11 +774,11 @@ type seqStep struct {
 
 // checkSequence: on every path from `from` to a return satisfying goal each
 // step occurs exactly once, and the steps occur in the given order.
-func checkSequence(ctx *core.Ctx, r *RT, rule, construct string, fn *ssa.Function, from ssa.Instruction, steps []seqStep, goal func(*ssa.Return) bool) {
+func checkSequence(ctx *core.Ctx, r *RT, rule, construct string, fn *ssa.Function, from ssa.Instruction, steps []seqStep, goal func(*ssa.Return) bool, opaque ...*ssa.Function) {
 	okAll := true
 	var firsts []ssa.Instruction
 	for _, s := range steps {
-		w := liftedWeight(fn, s.P, 2)
+		w := liftedWeight(fn, s.P, 2, opaque...)
 		mn, mx := ssax.CountOnPathsToW(fn, from, w, goal)
 		if mn != 1 || mx != 1 {
 			okAll = false
@@ -815,8 +827,13 @@ func checkSequence(ctx *core.Ctx, r *RT, rule, construct string, fn *ssa.Functio
 // liftedWeight: how often does instruction `in` of fn perform the step P —
 // directly (once), or through a same-goroutine call of a function of the same
 // package, with the range the callee performs it on its own successful paths.
-func liftedWeight(fn *ssa.Function, P ssax.Pred, depth int) func(ssa.Instruction) (int, int) {
+func liftedWeight(fn *ssa.Function, P ssax.Pred, depth int, opaque ...*ssa.Function) func(ssa.Instruction) (int, int) {
 	memo := map[*ssa.Function][2]int{}
+	for _, o := range opaque {
+		if o != nil {
+			memo[o] = [2]int{0, 0} // steps inside are somebody else's subject
+		}
+	}
 	var w func(in ssa.Instruction, d int) (int, int)
 	w = func(in ssa.Instruction, d int) (int, int) {
 		if P(in) {
@@ -843,7 +860,7 @@ func liftedWeight(fn *ssa.Function, P ssax.Pred, depth int) func(ssa.Instruction
 			if res.Len() == 0 || !isErrorType(res.At(res.Len()-1).Type()) {
 				return true
 			}
-			return nilErrorReturn(ret)
+			return successReturn(ret)
 		})
 		if hi <= 0 {
 			lo, hi = 0, 0
@@ -863,6 +880,70 @@ func firstMatchingLifted(fn *ssa.Function, P ssax.Pred) ssa.Instruction {
 		}
 	})
 	return f
+}
+
+// successReturn: the return can deliver a nil error — a nil constant, or the
+// result of a tail call `return helper(…)` of a function of the same package
+// that itself has such a return (bounded depth). With liftedWeight, which
+// counts a helper's steps on the helper's own successful paths, this makes
+// the sequence rules indifferent to an extracted tail.
+func successReturn(ret *ssa.Return) bool { return successReturnD(ret, 3) }
+
+func successReturnD(ret *ssa.Return, depth int) bool {
+	if nilErrorReturn(ret) {
+		return true
+	}
+	if depth <= 0 || len(ret.Results) == 0 {
+		return false
+	}
+	c, ok := ssax.Strip(ResolveLocal(ret.Results[len(ret.Results)-1])).(*ssa.Call)
+	if !ok {
+		return false
+	}
+	if !isErrorType(c.Type()) {
+		return false
+	}
+	// a tail call: the result is handed on untested (`if err := g(); err != nil
+	// { return err }` returns a value known to be non-nil)
+	if refs := c.Referrers(); refs != nil {
+		for _, u := range *refs {
+			if _, tested := u.(*ssa.BinOp); tested {
+				return false
+			}
+		}
+	}
+	g := c.Call.StaticCallee()
+	if g == ret.Parent() {
+		return false
+	}
+	if g == nil || g.Pkg != ret.Parent().Pkg || len(g.Blocks) == 0 {
+		// `return oprot.Flush(ctx)`: the last step's own result, which may be nil;
+		// not an error wrapper such as thrift.PrependError(msg, err)
+		for _, a := range c.Call.Args {
+			if isErrorType(a.Type()) {
+				return false
+			}
+		}
+		return true
+	}
+	res := g.Signature.Results()
+	if res.Len() != 1 || !isErrorType(res.At(0).Type()) {
+		return false
+	}
+	for i := 0; i < g.Signature.Params().Len(); i++ {
+		// an error filter (trapError(err)): its nil result says nothing about
+		// the steps before it having succeeded
+		if isErrorType(g.Signature.Params().At(i).Type()) {
+			return false
+		}
+	}
+	found := false
+	ssax.Instrs(g, func(in ssa.Instruction) {
+		if r2, ok := in.(*ssa.Return); ok && in.Block().Comment != "recover" && successReturnD(r2, depth-1) {
+			found = true
+		}
+	})
+	return found
 }
 
 func nilErrorReturn(ret *ssa.Return) bool {
@@ -931,32 +1012,87 @@ func valueAliases(v ssa.Value) map[ssa.Value]bool {
 // and the identity.
 func ThroughCall(r *RT, v ssa.Value) (ssa.Value, func(ssa.Value) ssa.Value) {
 	id := func(x ssa.Value) ssa.Value { return x }
-	c, ok := CallValue(v)
-	if !ok || c.Static == nil || c.Static.Pkg != r.Pkg || len(c.Static.Blocks) == 0 {
+	idx := 0
+	var call *ssa.Call
+	if ex, isEx := ssax.Strip(v).(*ssa.Extract); isEx {
+		// result #idx of a helper returning a tuple: its value on the helper's
+		// unique successful return
+		call, _ = ex.Tuple.(*ssa.Call)
+		idx = ex.Index
+	} else {
+		call, _ = ssax.Strip(v).(*ssa.Call)
+	}
+	if call == nil {
+		return v, id
+	}
+	c, _ := ssax.AsCall(call)
+	if c.Static == nil || c.Static.Pkg != r.Pkg || len(c.Static.Blocks) == 0 {
 		return v, id
 	}
 	g := c.Static
-	rets := ReturnedValues(g)
-	if len(rets) != 1 {
-		return v, id
-	}
-	for _, vs := range rets {
-		if len(vs) != 1 {
+	res := g.Signature.Results()
+	var inner ssa.Value
+	n := 0
+	for ret, vs := range ReturnedValues(g) {
+		if res.Len() > 1 && isErrorType(res.At(res.Len()-1).Type()) && !nilErrorReturn(ret) {
+			continue
+		}
+		if idx >= len(vs) {
 			return v, id
 		}
-		args := c.Common.Args
-		back := func(x ssa.Value) ssa.Value {
-			sx := ssax.Strip(x)
-			for i, p := range g.Params {
-				if ssa.Value(p) == sx && i < len(args) {
-					return args[i]
-				}
-			}
-			return x
-		}
-		return vs[0], back
+		inner = vs[idx]
+		n++
 	}
-	return v, id
+	if n != 1 {
+		return v, id
+	}
+	args := c.Common.Args
+	back := func(x ssa.Value) ssa.Value {
+		sx := ssax.Strip(x)
+		for i, p := range g.Params {
+			if ssa.Value(p) == sx && i < len(args) {
+				return args[i]
+			}
+		}
+		return x
+	}
+	return inner, back
+}
+
+// errorOrigins: the values a non-nil error v may be, looking through helpers
+// of the package that hand an error on (result #idx of their failing
+// returns), to a bounded depth; leaf(v) stops the descent.
+func errorOrigins(r *RT, v ssa.Value, leaf func(ssa.Value) bool, depth int) []ssa.Value {
+	v = ssax.Strip(v)
+	if depth <= 0 || leaf(v) {
+		return []ssa.Value{v}
+	}
+	idx := 0
+	var call *ssa.Call
+	if ex, isEx := v.(*ssa.Extract); isEx {
+		call, _ = ex.Tuple.(*ssa.Call)
+		idx = ex.Index
+	} else {
+		call, _ = v.(*ssa.Call)
+	}
+	if call == nil {
+		return []ssa.Value{v}
+	}
+	g := call.Call.StaticCallee()
+	if g == nil || g.Pkg != r.Pkg || len(g.Blocks) == 0 {
+		return []ssa.Value{v}
+	}
+	var out []ssa.Value
+	for ret, vs := range ReturnedValues(g) {
+		if nilErrorReturn(ret) || idx >= len(vs) {
+			continue
+		}
+		out = append(out, errorOrigins(r, vs[idx], leaf, depth-1)...)
+	}
+	if len(out) == 0 {
+		return []ssa.Value{v}
+	}
+	return out
 }
 
 // Role-based anchors: unexported helpers are found through the exported entry
@@ -1014,23 +1150,29 @@ func (r *RT) roleTrapError() *ssa.Function {
 // field is the only one of its type in its struct, it is recognised by that
 // type after a rename (the pinned tree's name stays the canonical one).
 var canonicalFields = map[string]map[string]string{ // owner → canonical name → type (as written by types.TypeString with package names)
-	"fAdapterTransport":        {"closeSignal": "chan struct{}", "closeChan": "chan error", "monitorCloseSignal": "chan<- error", "isOpen": "bool"},
-	"fNatsServer":              {"workerCount": "uint", "workC": "chan *frugal.frameWrapper", "quit": "chan chan<- error"},
-	"fNatsSubscriberTransport": {"workerCount": "uint", "workC": "chan *nats.Msg", "quitC": "chan struct{}"},
-	"FBaseProcessor":           {"processMap": "map[string]frugal.FProcessorFunction"},
-	"FScopeProvider":           {"middleware": "[]frugal.ServiceMiddleware"},
-	"FServiceProvider":         {"middleware": "[]frugal.ServiceMiddleware"},
-	"TMemoryOutputBuffer":      {"limit": "uint"},
-	"FStandardClient":          {"limit": "uint"},
-	"Method":                   {"handler": "frugal.InvocationHandler", "proxiedStruct": "reflect.Value", "proxiedMethod": "reflect.Method"},
-	"FSimpleServer":            {"quit": "chan struct{}"},
-	"monitorRunner":            {"closedChannel": "<-chan error"},
+	"fAdapterTransport":         {"closeSignal": "chan struct{}", "closeChan": "chan error", "monitorCloseSignal": "chan<- error", "isOpen": "bool", "mu": "sync.RWMutex"},
+	"fNatsServer":               {"workerCount": "uint", "workC": "chan *frugal.frameWrapper", "quit": "chan chan<- error"},
+	"FBaseProcessor":            {"processMap": "map[string]frugal.FProcessorFunction", "writeMu": "sync.Mutex"},
+	"FBaseProcessorFunction":    {"writeMu": "*sync.Mutex"},
+	"FContextImpl":              {"mu": "sync.RWMutex"},
+	"fRegistryImpl":             {"mu": "sync.RWMutex"},
+	"TFramedTransport":          {"mu": "sync.Mutex"},
+	"fNatsSubscriberTransport":  {"workerCount": "uint", "workC": "chan *nats.Msg", "quitC": "chan struct{}", "openMu": "sync.RWMutex"},
+	"fStompSubscriberTransport": {"openMu": "sync.RWMutex"},
+	"FScopeProvider":            {"middleware": "[]frugal.ServiceMiddleware"},
+	"FServiceProvider":          {"middleware": "[]frugal.ServiceMiddleware"},
+	"TMemoryOutputBuffer":       {"limit": "uint"},
+	"FStandardClient":           {"limit": "uint"},
+	"Method":                    {"handler": "frugal.InvocationHandler", "proxiedStruct": "reflect.Value", "proxiedMethod": "reflect.Method"},
+	"FSimpleServer":             {"quit": "chan struct{}"},
+	"monitorRunner":             {"closedChannel": "<-chan error"},
 }
 
 var fieldAlias = map[*types.Var]string{} // renamed field → canonical name
 
 func computeFieldAliases(pkg *types.Package) {
 	fieldAlias = map[*types.Var]string{}
+	ssax.FieldName = structFieldName
 	qual := func(p *types.Package) string { return p.Name() }
 	for owner, fields := range canonicalFields {
 		tn, ok := pkg.Scope().Lookup(owner).(*types.TypeName)
